@@ -40,6 +40,14 @@ L1NoOverlap ==
   \A i, j \in Calls :
      (i < j /\ Evs[i].a # Evs[j].a /\ Dom(i) = Dom(j) /\ (Writer(i) \/ Writer(j)) /\ span[i][1] > 0 /\ span[j][1] > 0)
         => (span[i][2] < span[j][1] \/ span[j][2] < span[i][1])
+\* "read locks ... may be shared among readers": reported per run (an existential statement over the explored
+\* schedules: the check requires at least one run in which two readers really overlapped)
+ReadersOverlap ==
+  LET span == [i \in Calls |-> IF Body(i) = {} THEN <<0, 0>> ELSE <<Min(Body(i)), Max(Body(i))>>] IN
+  \E i, j \in Calls : /\ i < j /\ Evs[i].a # Evs[j].a /\ Dom(i) = Dom(j) /\ ~Writer(i) /\ ~Writer(j)
+                      /\ span[i][1] > 0 /\ span[j][1] > 0
+                      /\ ~(span[i][2] < span[j][1] \/ span[j][2] < span[i][1])
+NoteShared == ReadersOverlap => PrintT(<<"SHARED", t>>)
 \* the unlocked side file every write-lock holder stamps and re-reads (no other holder was inside)
 L1Witness == R.l1 = <<>>
 \* no deadlock on the lock, no panic, every call returned
@@ -53,7 +61,7 @@ L1CleanTransform == (R.family = "Fault" /\ R.inject.kind = "none") =>
      \A i \in 1..Len(Evs) : (Evs[i].ev = "ret" /\ Evs[i].op = "transform") => Evs[i].res = "ok"
 
 Bad(name) == PrintT(<<"BAD", name, t>>)
-InvL1NoOverlap      == L1NoOverlap \/ Bad("L1NoOverlap")
+InvL1NoOverlap      == (L1NoOverlap \/ Bad("L1NoOverlap")) /\ NoteShared
 InvL1Witness        == L1Witness \/ Bad("L1Witness")
 InvL1Terminates     == L1Terminates \/ Bad("L1Terminates")
 InvL1FaultKeepsOld  == L1FaultKeepsOld \/ Bad("L1FaultKeepsOld")
